@@ -78,6 +78,15 @@ Theorem C34_batching :
     nsum (batches n nb pre) = (n - pre)%nat /\ Forall (fun b => (0 < b)%nat) (batches n nb pre).
 Proof. exact batches_sum. Qed.
 
+(* solver shift of _eigsh (data space): the eigenvalue reported for an eigen-direction is the operator's
+   eigenvalue exactly when the projected operator handed to the solver -- also the one built on resume --
+   carries the shift that is subtracted afterwards; with an unshifted operator it is off by the shift *)
+Theorem C34_solver_shift :
+  forall sigma lam : Q,
+    (reported_eigenvalue sigma sigma lam == lam)%Q /\
+    (~ (sigma == 0)%Q -> ~ (reported_eigenvalue 0 sigma lam == lam)%Q).
+Proof. intros; split; [apply shift_consistent | apply shift_inconsistent]. Qed.
+
 (* non-vacuity: a resumed and a fresh schedule (the Lanczos hypotheses are exercised with Q^n and
    generated SPD matrices by the correspondence on every check run) *)
 Example C34_batches_example : batches 7 3 4 = [1; 2]%nat /\ batches 7 3 0 = [3; 2; 2]%nat.
